@@ -193,7 +193,7 @@ class ModelInterp(MiniEval):
                 if 'property' in decs or 'cached_property' in decs:
                     if inst is None:
                         raise Unsupported(f'property {attr} on a class')
-                    val = self.call_fn(m, [inst])
+                    val = self.call_bound(Bound(inst, m), [], {})
                     if 'cached_property' in decs:
                         inst._attrs[attr] = val
                     return val
@@ -217,6 +217,21 @@ class ModelInterp(MiniEval):
         raise Unsupported(f'attribute {attr!r} not found on {cls_q.split(".")[-1]} (stub has {sorted(inst._attrs) if inst else "-"})')
 
     def attribute(self, e: ast.Attribute, env: dict) -> Any:
+        if isinstance(e.value, ast.Call) and isinstance(e.value.func, ast.Name) and e.value.func.id == 'super' and not e.value.args:
+            # super().<property or method> read as a value
+            inst = env.get('self')
+            cur = env.get('__class_q__')
+            if isinstance(inst, Stub) and cur:
+                mro = self.a.ct.mro(inst._cls)
+                for c in mro[mro.index(cur) + 1:]:
+                    ci = self.a.p.classes.get(c)
+                    if ci and e.attr in ci.methods:
+                        m = ci.methods[e.attr]
+                        decs = [d.split('.')[-1] for d in m.decorators]
+                        if 'property' in decs or 'cached_property' in decs:
+                            return self.call_bound(Bound(inst, m), [], {})
+                        return Bound(inst, m)
+            raise Unsupported(f'super().{e.attr}')
         base = self.expr(e.value, env)
         return self.get_attr(base, e.attr)
 
